@@ -517,4 +517,262 @@ theorem loop_progress {delay lim : Nat} {L : Bool → List Int} {B : Int}
 
 end
 
+/-! ### the initial state -/
+
+theorem tcount_mono {P Q : SimEvent → Bool} (h : ∀ e, P e = true → Q e = true) (sq : SimQueue) :
+    tcount P sq ≤ tcount Q sq := by
+  have hm : ∀ l : List SimEvent, l.countP P ≤ l.countP Q := fun l => List.countP_mono_left (fun e _ he => h e he)
+  unfold tcount qcount
+  have a1 := hm sq.client.base.data
+  have a2 := hm sq.client.blocking.data
+  have a3 := hm sq.client.bypassable.data
+  have a4 := hm sq.client.internal.data
+  have a5 := hm sq.server.base.data
+  have a6 := hm sq.server.blocking.data
+  have a7 := hm sq.server.bypassable.data
+  have a8 := hm sq.server.internal.data
+  omega
+
+/-- the parsed queue holds one NormalSent per line and nothing else -/
+theorem parseTrace_counts (trace : List TraceLine) (delay : Nat) :
+    tcount isNS (parseTrace trace delay) = trace.length ∧ tcount isTS (parseTrace trace delay) = 0 ∧
+    tcount isTR (parseTrace trace delay) = 0 ∧ tcount isNR (parseTrace trace delay) = 0 ∧
+    tcount (fun _ => true) (parseTrace trace delay) = trace.length := by
+  obtain ⟨hs1, hs2⟩ := parseTrace_sides trace delay
+  have hall : ∀ (P : SimEvent → Bool), tcount P (parseTrace trace delay) = (trace.map (nsOf delay)).countP P := by
+    intro P
+    rw [tcount_congr _ hs1 hs2, pushAll_tcount, tcount_empty, Nat.zero_add]
+  have hev : ∀ e ∈ trace.map (nsOf delay), e.event = .normalSent := by
+    intro e he
+    simp only [List.mem_map] at he
+    obtain ⟨l, _, hl⟩ := he
+    subst hl
+    unfold nsOf; split <;> rfl
+  have hyes : ∀ (P : SimEvent → Bool), (∀ e, e.event = .normalSent → P e = true) →
+      (trace.map (nsOf delay)).countP P = trace.length := by
+    intro P hP
+    rw [List.countP_eq_length.2 (fun e he => hP e (hev e he)), List.length_map]
+  have hno : ∀ (P : SimEvent → Bool), (∀ e, e.event = .normalSent → P e = false) →
+      (trace.map (nsOf delay)).countP P = 0 := by
+    intro P hP
+    rw [List.countP_eq_zero]
+    intro e he
+    simp [hP e (hev e he)]
+  refine ⟨?_, ?_, ?_, ?_, ?_⟩
+  · rw [hall]; exact hyes _ (fun e h => by simp [isNS, h])
+  · rw [hall]; exact hno _ (fun e h => by simp [isTS, h])
+  · rw [hall]; exact hno _ (fun e h => by simp [isTR, h])
+  · rw [hall]; exact hno _ (fun e h => by simp [isNR, h])
+  · rw [hall]; exact hyes _ (fun e _ => rfl)
+
+/-- every event of the parsed queue is the NormalSent of a line -/
+theorem parseTrace_mem (trace : List TraceLine) (delay : Nat) :
+    (parseTrace trace delay).AllE fun e => e ∈ trace.map (nsOf delay) := by
+  obtain ⟨hs1, hs2⟩ := parseTrace_sides trace delay
+  have hside := side_congr hs1 hs2
+  intro c qi e he
+  rw [hside] at he
+  exact pushAll_allE (p := fun e => e ∈ trace.map (nsOf delay)) _ _
+    (by intro c qi e he; cases c <;> cases qi <;> cases he) (fun e he => he) c qi e he
+
+theorem parseTrace_other_empty (trace : List TraceLine) (delay : Nat) :
+    ∀ c qi, qi ≠ .base → (((parseTrace trace delay).side c).heap qi).data = [] := by
+  obtain ⟨hs1, hs2⟩ := parseTrace_sides trace delay
+  have hside := side_congr hs1 hs2
+  have hroute : ∀ e ∈ trace.map (nsOf delay), route e = .base := by
+    intro e he
+    simp only [List.mem_map] at he
+    obtain ⟨l, _, hl⟩ := he
+    subst hl
+    unfold nsOf route; cases l.2 <;> rfl
+  intro c qi hq
+  rw [hside, pushAll_heap_other _ _ c qi hroute hq]
+  cases c <;> cases qi <;> first | rfl | exact absurd rfl hq
+
+/-- a non-empty trace has a first base time -/
+theorem parseTrace_firstTime_some (trace : List TraceLine) (delay : Nat) (hne : trace ≠ []) :
+    ∃ t0, (parseTrace trace delay).firstTime = some t0 := by
+  cases hft : (parseTrace trace delay).firstTime with
+  | some t0 => exact ⟨t0, rfl⟩
+  | none =>
+    exfalso
+    have hemp := parseTrace_other_empty trace delay
+    have hbase : ∀ c, (((parseTrace trace delay).side c).heap .base).data = [] := by
+      unfold SimQueue.firstTime EventQueue.firstBaseTime at hft
+      have hc : (parseTrace trace delay).client.base = ((parseTrace trace delay).side true).heap .base := rfl
+      have hs : (parseTrace trace delay).server.base = ((parseTrace trace delay).side false).heap .base := rfl
+      rw [hc, hs] at hft
+      intro c
+      cases hpc : (((parseTrace trace delay).side true).heap .base).peek <;>
+        cases hps : (((parseTrace trace delay).side false).heap .base).peek <;>
+        simp [hpc, hps] at hft
+      have h1 := heap_peek_none hpc
+      have h2 := heap_peek_none hps
+      unfold Heap.len at h1 h2
+      cases c
+      · exact List.eq_nil_of_length_eq_zero h2
+      · exact List.eq_nil_of_length_eq_zero h1
+    have hz : tcount (fun _ => true) (parseTrace trace delay) = 0 := by
+      apply tcount_zero_of_all
+      intro c qi e he
+      by_cases hq : qi = .base
+      · subst hq; rw [hbase c] at he; cases he
+      · rw [hemp c qi hq] at he; cases he
+    have := (parseTrace_counts trace delay).2.2.2.2
+    have hl : 0 < trace.length := List.length_pos_iff.2 hne
+    omega
+
+theorem feedCounts_head (w : Nat) (x : Int) (r : List Int) : 1 ∈ feedCounts ⟨w, []⟩ (x :: r) := by
+  have : ((⟨w, []⟩ : WindowCount).add x).1 = 1 := by
+    unfold WindowCount.add
+    simp [WindowCount.prune, dsince, durSince]
+  simp [feedCounts, this]
+
+section
+variable {σ : Type} (ρ : Oracle σ)
+
+theorem Side.new_nomach (t0 : Int) (fp fb : F64) (orc : σ) (h1 : Validate.fracOK fp = true) (h2 : Validate.fracOK fb = true) :
+    ∃ sd o, Side.new ρ [] t0 fp fb orc = .ok (sd, o) ∧ sd.fw.fault = none := by
+  unfold Side.new
+  have hv : Validate.frameworkNew [] fp fb = true := by simp [Validate.frameworkNew, h1, h2]
+  have hf : (Fw.init ρ [] fp fb t0 orc).fault = none := by simp [Fw.init, Fw.init0]
+  simp only [hv, Bool.not_true, Bool.false_eq_true, if_false, hf]
+  exact ⟨_, _, rfl, hf⟩
+
+/-- the initial state of a run without machines on a non-empty parsed trace exists and satisfies
+    the progress invariant with the horizon one nanosecond short of `Duration::MAX` -/
+theorem initState_pinv {trace : List TraceLine} {delay lim : Nat} {a : Args} {orc : σ} (hne : trace ≠ [])
+    (hnet : a.network = ⟨delay, none⟩) (hlim : (parseTrace trace delay).maxPps = some lim) (hpos : 0 < lim)
+    (hB : ∀ l ∈ trace, ((l.1 : Nat) : Int) + 2 * (delay : Int) < durMax)
+    (hfrac : Validate.fracOK a.fpClient = true ∧ Validate.fracOK a.fbClient = true ∧
+      Validate.fracOK a.fpServer = true ∧ Validate.fracOK a.fbServer = true) :
+    ∃ st, initState ρ [] [] (parseTrace trace delay) a orc = .ok st ∧
+      PInv delay lim (Lof trace delay) (st.now + durMax - 1) st ∧ st.sq = parseTrace trace delay := by
+  obtain ⟨t0, hft⟩ := parseTrace_firstTime_some trace delay hne
+  obtain ⟨c, o1, hc, hfc⟩ := Side.new_nomach ρ t0 a.fpClient a.fbClient orc hfrac.1 hfrac.2.1
+  obtain ⟨s, o2, hsv, hfs⟩ := Side.new_nomach ρ t0 a.fpServer a.fbServer o1 hfrac.2.2.1 hfrac.2.2.2
+  have hnew : ∃ net, Bottleneck.new a.network Gen.SIM_BOTTLENECK_WINDOW_NS (parseTrace trace delay).maxPps = .ok net := by
+    unfold Bottleneck.new
+    simp only [hnet, hlim, Option.getD_none, Option.getD_some]
+    have : ¬ min lim (2 ^ 32 - 1) = 0 := by
+      have : (2 : Nat) ^ 32 - 1 ≠ 0 := by decide
+      omega
+    simp only [this, if_false]
+    exact ⟨_, rfl⟩
+  obtain ⟨net, hnew⟩ := hnew
+  have hi : initState ρ [] [] (parseTrace trace delay) a orc =
+      .ok { sq := parseTrace trace delay, client := c, server := s, net := net, now := t0, orc := o2 } := by
+    unfold initState firstTimeE
+    simp only [hft, bind, Except.bind, hc, hsv, hnew, pure, Except.pure]
+  refine ⟨_, hi, ?_, rfl⟩
+  have hB' : ∀ l ∈ trace, ((l.1 : Nat) : Int) + 2 * (delay : Int) ≤ durMax := fun l hl => by
+    have := hB l hl; omega
+  obtain ⟨hx, _, _⟩ := initState_xinv ρ hnet hlim hB' hi
+  simp only [] at hx ⊢
+  -- every queued event is a line's NormalSent: bounds on its time
+  have hrange : (parseTrace trace delay).AllE fun e =>
+      -(delay : Int) ≤ e.time ∧ reach delay e + (delay : Int) < durMax := by
+    refine SimQueue.allE_mono (parseTrace_mem trace delay) ?_
+    intro e he
+    simp only [List.mem_map] at he
+    obtain ⟨l, hl, hle⟩ := he
+    subst hle
+    have := hB l hl
+    unfold nsOf reach
+    split <;> simp [isNS] <;> omega
+  obtain ⟨_, cm, rm, hrm, hrt⟩ := firstTime_min hx.ord (parseTrace_other_empty trace delay) hft
+  have ht0lo : -(delay : Int) ≤ t0 := by rw [← hrt]; exact (hrange cm .base rm hrm).1
+  refine ⟨⟨hx.nm, hx.nq, hx.wf, hx.ord, ?_, ?_, hx.win, hx.bud⟩, hfc, hfs, ?_⟩
+  · intro c' qi e he
+    have h1 := hx.fut c' qi e he
+    have h2 := hrange c' qi e he
+    exact ⟨h1.1, by omega⟩
+  · show t0 + (durMax : Int) - 1 - t0 ≤ durMax
+    omega
+  · show t0 + (durMax : Int) - 1 - t0 < durMax
+    omega
+
+/-! ### the whole run -/
+
+theorem finish_final_noNormal (args : Args) (o : LoopOut σ) (h : o.stop = .noNormal) : (finish args o).final = o.final := by
+  unfold finish; rw [h]
+
+/-- **Progress, in terms of the window counts of the trace** (see `C14_progress` in
+    Props/C14.lean for the statement in terms of the trace alone). -/
+theorem sim_progress (budget : Nat) (trace : List TraceLine) (delay lim : Nat) (a : Args) (orc : σ)
+    (hne : trace ≠ []) (hnet : a.network = ⟨delay, none⟩) (hlim : (parseTrace trace delay).maxPps = some lim)
+    (hs : Asc (sTimes trace)) (hr : Asc (rTimes trace))
+    (hfs : ∀ c ∈ feedCounts ⟨Gen.SIM_BOTTLENECK_WINDOW_NS, []⟩ (sTimes trace), c ≤ lim)
+    (hfr : ∀ c ∈ feedCounts ⟨Gen.SIM_BOTTLENECK_WINDOW_NS, []⟩ ((rTimes trace).map (· + (-(delay : Int)))), c ≤ lim)
+    (hB : ∀ l ∈ trace, ((l.1 : Nat) : Int) + 2 * (delay : Int) < durMax)
+    (hfrac : Validate.fracOK a.fpClient = true ∧ Validate.fracOK a.fbClient = true ∧
+      Validate.fracOK a.fpServer = true ∧ Validate.fracOK a.fbServer = true)
+    (hcont : a.continueAfterAllNormal = false)
+    (hit : a.maxSimIterations = 0 ∨ 4 * trace.length ≤ a.maxSimIterations)
+    (hlen : a.maxTraceLength = 0 ∨ 4 * trace.length ≤ a.maxTraceLength)
+    (hbud : 4 * trace.length ≤ budget + 1) :
+    (simAdvanced ρ budget [] [] (parseTrace trace delay) a orc).stop = .noNormal ∧
+    ∃ stf, (simAdvanced ρ budget [] [] (parseTrace trace delay) a orc).final = some stf ∧
+      stf.sq.noNormalPackets = true ∧
+      (simAdvanced ρ budget [] [] (parseTrace trace delay) a orc).stream.length + tcount isNR stf.sq = 4 * trace.length ∧
+      tcount isNR stf.sq ≤ trace.length := by
+  have hstat : ∀ c t, t ∈ Lof trace delay c →
+      (Lof trace delay c).countP (fun x => decide (x ≤ t) && inWin Gen.SIM_BOTTLENECK_WINDOW_NS t x) ≤ lim := by
+    intro c
+    cases c
+    · show ∀ t ∈ (rTimes trace).map (· - (delay : Int)), _
+      rw [map_sub_eq_add]
+      apply static_of_feed _ _ _ ?_ hfr
+      unfold Asc
+      rw [List.pairwise_map]
+      exact hr.imp (by intro x y hxy; omega)
+    · exact static_of_feed _ _ _ hs hfs
+  -- the trace-derived limit is positive
+  have hpos : 0 < lim := by
+    cases htr : trace with
+    | nil => exact absurd htr hne
+    | cons l ls =>
+      cases hl : l.2
+      · have : (rTimes trace).map (· + (-(delay : Int))) = ((l.1 : Int) + (-(delay : Int))) :: (rTimes ls).map (· + (-(delay : Int))) := by
+          rw [htr]; simp [rTimes, hl]
+        rw [this] at hfr
+        exact hfr 1 (feedCounts_head _ _ _)
+      · have : sTimes trace = (l.1 : Int) :: sTimes ls := by
+          rw [htr]; simp [sTimes, hl]
+        rw [this] at hfs
+        exact hfs 1 (feedCounts_head _ _ _)
+  obtain ⟨st, hi, hp, hsq⟩ := initState_pinv ρ (orc := orc) hne hnet hlim hpos hB hfrac
+  obtain ⟨c1, c2, c3, c4, c5⟩ := parseTrace_counts trace delay
+  have hw0 : wgt st.sq = 4 * trace.length := by unfold wgt; rw [hsq, c1, c2, c3, c4]; omega
+  have ha0 : 0 < act st.sq := by
+    unfold act; rw [hsq, c1, c2, c3]
+    have := List.length_pos_iff.2 hne; omega
+  have hfuel : wgt st.sq ≤ loopFuel a budget + 1 := by
+    rw [hw0]; unfold loopFuel
+    split
+    · rcases hit with h | h <;> omega
+    · omega
+  obtain ⟨hstop, stf, hfin, hact, hcnt⟩ := loop_progress ρ hstat a hcont (loopFuel a budget) st 0 0 hp ha0 hfuel
+    (by rw [hw0]; rcases hit with h | h; exact Or.inl h; right; omega)
+    (by rw [hw0]; rcases hlen with h | h; exact Or.inl h; right; omega)
+  -- the events still queued at the end are at most as many as the lines
+  obtain ⟨hxf, hT⟩ := loop_exact ρ hstat a (fun _ => true) isNR
+    (by
+      intro e hok
+      rcases pktOK_event hok with hev | hev | hev | hev <;> simp [succL, hev, isNR, b2n])
+    (loopFuel a budget) st 0 0 hp.x stf hfin
+  have hnr : tcount isNR stf.sq ≤ trace.length := by
+    have h1 := tcount_mono (P := isNR) (Q := fun _ => true) (fun _ _ => rfl) stf.sq
+    rw [hsq, c5] at hT
+    omega
+  have hwf : wgt stf.sq = tcount isNR stf.sq := by
+    unfold act at hact; unfold wgt; omega
+  unfold simAdvanced
+  simp only [hi]
+  rw [finish_stop, finish_stream, finish_final_noNormal a _ hstop]
+  refine ⟨hstop, stf, hfin, (noNormal_iff_act hxf.wf hxf.nm.pk).2 hact, ?_, hnr⟩
+  rw [← hwf, hcnt, hw0]
+
+end
+
 end Mb.Sim
